@@ -63,7 +63,7 @@ def build_module(mod):
     if os.path.exists(sumsrc):
         shutil.copy(sumsrc, os.path.join(BUILD, mod + ".sum"))
     with open(modfile, "a") as f:
-        f.write("\nrequire verifsim v0.0.0\nreplace verifsim => %s/sim\n" % VERIF)
+        f.write("\nrequire verifsim v0.0.0\nreplace verifsim => %s\n" % os.environ.get("VERIF_SIM_DIR", VERIF + "/sim"))
         for extra in spec.get("extra_mod", []):
             f.write(extra + "\n")
     # go.mod replace directives with relative paths are relative to the modfile's directory: make them absolute
@@ -72,8 +72,26 @@ def build_module(mod):
     txt = re.sub(r"=>\s+\.\.(\s|$)", "=> " + os.path.normpath(os.path.join(moddir, "..")) + r"\1", txt)
     open(modfile, "w").write(txt)
     rep = {}
-    for f in sorted(glob.glob(os.path.join(VERIF, "harness", spec["harness"], "*_test.go"))):
+    for f in sorted(glob.glob(os.path.join(VERIF, "harness", spec["harness"], "*.go"))):
         rep[os.path.join(moddir, spec.get("pkgdir", ""), "zzverif_" + os.path.basename(f))] = f
+    if mod != "rueidis":
+        # add-on modules import rueidis from /repo: give that package the simulator glue (non-test file), and give
+        # the add-on package the shared driver with its package clause rewritten
+        rep[os.path.join(REPO, "zzverif_vglue.go")] = os.path.join(VERIF, "harness", "rueidis", "vglue.go")
+        srcs = sorted(glob.glob(os.path.join(VERIF, "harness", "common", "*.go"))) + [os.path.join(VERIF, "harness", "rueidis", "main_test.go")]
+        for f in srcs:
+            gen = os.path.join(BUILD, mod + "_" + os.path.basename(f))
+            txt = open(f).read().replace("package PKGNAME", "package " + spec["package"])
+            if f.endswith("/rueidis/main_test.go"):
+                # the driver of package rueidis, re-targeted: same flags, same output format
+                txt = txt.replace("package rueidis", "package " + spec["package"], 1)
+                txt = txt.replace("\tinstallHooks()\n", "\trueidis.VerifInstallHooks()\n")
+                txt = txt.replace("\tcurSim.Store(nil)\n", "\trueidis.VerifSetSim(nil, 0)\n")
+                txt = txt.replace('import (\n', 'import (\n\t"github.com/redis/rueidis"\n', 1)
+                if "rueidis.VerifInstallHooks" not in txt or "rueidis.VerifSetSim" not in txt:
+                    infra("could not re-target the driver for " + mod)
+            open(gen, "w").write(txt)
+            rep[os.path.join(moddir, spec.get("pkgdir", ""), "zzverif_common_" + os.path.basename(f))] = gen
     overlay = os.path.join(BUILD, mod + ".overlay")
     json.dump({"Replace": rep}, open(overlay, "w"))
     out = os.path.join(BIN, mod + ".test")
